@@ -562,21 +562,64 @@ package sipsp
 //@ func ParseTokenParam(buf, offs, param, flags) (n, err)
 //@   law[C03,C02] EXT(buf) when flags&POptInputEndF == 0
 //@   requires bufOK(buf) && 0 <= offs && offs <= len(buf) && param != nil && ptOK(param, offs)
-//@   requires[C17,*] ptInv(buf, param, offs, flags)
 //@   modifies *param
 //@   loop 0 "for i < len(buf)"
 //@     invariant offs <= i && i <= len(buf) && ptOK(param, i) && param.state != vpFIN
-//@     invariant[C17,*] ptInv(buf, param, i, flags)
+//@     invariant (i == offs ==> param.state == param_old.state) && (param.state == vpInitNxtVal ==> param_old.state == vpInitNxtVal)
+//@     invariant[C17,*] ptInv(buf, &param_old, offs0, flags) ==> ptInv(buf, param, i, flags)
 //@     decreases len(buf) - i
 //@     cases int(param.state) 0 8
 //@   ensures 0 <= n && n <= len(buf)
 //@   ensures err == ErrHdrOk || err == ErrHdrMoreBytes || err == ErrHdrMoreValues || err == ErrHdrEOH ==> offs <= n
 //@   ensures ptWithin(param, len(buf))
 //@   ensures err == ErrHdrMoreBytes ==> ptOK(param, n)
-//@   ensures[C17] "suspended": err == ErrHdrMoreBytes ==> ptInv(buf, param, n, flags)
-//@   ensures[C17] "param-found": param_old.state != vpFIN && param_old.state != vpERR && (err == ErrHdrOk || err == ErrHdrMoreValues || (err == ErrHdrEOH && param.state == vpFIN)) ==>
+//@   ensures err == ErrHdrMoreBytes ==> param.state != vpFIN && (param.state == vpInitNxtVal ==> param_old.state == vpInitNxtVal)
+//@   ensures err == ErrHdrMoreValues ==> param.state == vpInitNxtVal && (n > offs || param_old.state == vpFNxt)
+//@   ensures[C17] "suspended": ptInv(buf, &param_old, offs, flags) && err == ErrHdrMoreBytes ==> ptInv(buf, param, n, flags)
+//@   ensures[C17] "param-found": ptInv(buf, &param_old, offs, flags) && param_old.state != vpFIN && param_old.state != vpERR && (err == ErrHdrOk || err == ErrHdrMoreValues || (err == ErrHdrEOH && param.state == vpFIN)) ==>
 //@                 ptNameDone(buf, param, flags) && ptValDone(buf, param, flags) && fend(param.All) <= n
 //@   ensures[C17] "ok-at-terminator": param_old.state != vpFIN && err == ErrHdrOk ==> param.state == vpFIN && n < len(buf) &&
 //@                 ((ptTerm(flags) != 0 && buf[n] == ptTerm(flags)) || flags&POptTokSpTermF != 0)
 //@   ensures[C17] "more-values": err == ErrHdrMoreValues ==> param.state == vpInitNxtVal && n < len(buf) && tokAllowedChar(buf[n], flags) && buf[n] != ptSep(flags)
 //@   ensures[C17] "bad-char": err == ErrHdrBadChar && param.state == vpERR ==> n < len(buf) && (!tokAllowedChar(buf[n], flags) || flags&POptTokSpTermF == 0)
+
+// ---- URI parameter and header lists (C17) ----
+
+//@ func URIParamResolve(n) (r)
+//@   requires len(n) <= 65535
+//@   ensures[C17] "resolve-table": (r == URIParamTransportF <==> cieq(n, []byte("transport"))) && (r == URIParamUserF <==> cieq(n, []byte("user"))) &&
+//@                 (r == URIParamMethodF <==> cieq(n, []byte("method"))) && (r == URIParamTTLF <==> cieq(n, []byte("ttl"))) &&
+//@                 (r == URIParamMaddrF <==> cieq(n, []byte("maddr"))) && (r == URIParamLRF <==> cieq(n, []byte("lr")))
+//@   ensures r == URIParamTransportF || r == URIParamUserF || r == URIParamMethodF || r == URIParamTTLF || r == URIParamMaddrF || r == URIParamLRF || r == URIParamOtherF
+
+//@ func ParseAllURIParams(buf, offs, l, flags) (n, vNo, err)
+//@   requires bufOK(buf) && 0 <= offs && offs <= len(buf) && l != nil && uparOK(l, buf, offs, flags|POptParamSemiSepF) && l.N <= 1<<30
+//@   modifies l.N, l.Types, l.tmp, l.Params[*]
+//@   loop 0 "for"
+//@     invariant offs0 <= offs && offs <= len(buf) && uparOK(l, buf, offs, flags|POptParamSemiSepF)
+//@     invariant 0 <= vNo && l.N == l_old.N + vNo && vNo <= offs - offs0 + 1 && (vNo == 0 || curUPar(l).Param.state == vpInit)
+//@     invariant[C17] l.Types&l_old.Types == l_old.Types
+//@     split l.N < len(l.Params)
+//@     split l.N+1 < len(l.Params)
+//@     decreases listMeasure(len(buf)-offs, vNo)
+//@   ensures 0 <= n && n <= len(buf)
+//@   ensures err == ErrHdrOk || err == ErrHdrMoreBytes || err == ErrHdrEOH ==> offs <= n
+//@   ensures err == ErrHdrMoreBytes ==> uparOK(l, buf, n, flags|POptParamSemiSepF)
+//@   ensures[C17] "counted": l.N == l_old.N + vNo && 0 <= vNo
+//@   ensures uparWF(l)
+//@   ensures[C17] "types-accumulate": l.Types&l_old.Types == l_old.Types
+
+//@ func ParseAllURIHdrs(buf, offs, l, flags) (n, vNo, err)
+//@   requires bufOK(buf) && 0 <= offs && offs <= len(buf) && l != nil && uhdrOK(l, buf, offs, flags|POptParamAmpSepF|POptTokURIHdrF) && l.N <= 1<<30
+//@   modifies l.N, l.tmp, l.Hdrs[*]
+//@   loop 0 "for"
+//@     invariant offs0 <= offs && offs <= len(buf) && uhdrOK(l, buf, offs, flags|POptParamAmpSepF|POptTokURIHdrF)
+//@     invariant 0 <= vNo && l.N == l_old.N + vNo && vNo <= offs - offs0 + 1 && (vNo == 0 || curUHdr(l).state == vpInit)
+//@     split l.N < len(l.Hdrs)
+//@     split l.N+1 < len(l.Hdrs)
+//@     decreases listMeasure(len(buf)-offs, vNo)
+//@   ensures 0 <= n && n <= len(buf)
+//@   ensures err == ErrHdrOk || err == ErrHdrMoreBytes || err == ErrHdrEOH ==> offs <= n
+//@   ensures err == ErrHdrMoreBytes ==> uhdrOK(l, buf, n, flags|POptParamAmpSepF|POptTokURIHdrF)
+//@   ensures[C17] "counted": l.N == l_old.N + vNo && 0 <= vNo
+//@   ensures uhdrWF(l)
